@@ -222,12 +222,12 @@ func generated(a lib.Args) []RoundSpec {
 	}
 	// shared Session handles carrying 3 / 5-7 chain items; first use of statement texts whose
 	// preparation fails; staggered cold starts on one soft-delete model
-	nShared, nFail, nStag := 8, 4, 4
+	nShared, nFail, nStag := 16, 4, 4
 	if thorough {
-		nShared, nFail, nStag = 60, 30, 30
+		nShared, nFail, nStag = 112, 30, 30
 	}
 	for i := 0; i < nShared; i++ {
-		d := genShared(r.Fork(), i, []int{4, 8, 6, 12}[i%4], thorough)
+		d := genShared(r.Fork(), i, []int{4, 8, 6, 4}[i%4], thorough)
 		out = append(out, RoundSpec{Kind: "db", DB: &d})
 	}
 	for i := 0; i < nFail; i++ {
